@@ -245,9 +245,13 @@ func c03Exchange(r *rand.Rand, f []string) string {
 		e.takeWrites()
 		e.hub.takeCalls()
 	}
+	// the unique id of the CALL cycles through a short one, the longest legal one (36 characters, the length of a UUID)
+	// and a one-character id: the reply must carry it whatever its length
+	c03Row++
+	callID := []string{"rq-77", "0a1b2c3d-4e5f-6789-abcd-ef0123456789", "x"}[c03Row%3]
 	dl := make(chan struct{})
 	go func() {
-		_ = e.deliver("c1", []byte(fmt.Sprintf(`[2,"rq-77","%s",%s]`, feature, payload)))
+		_ = e.deliver("c1", []byte(fmt.Sprintf(`[2,"%s","%s",%s]`, callID, feature, payload)))
 		close(dl)
 	}()
 	select {
@@ -275,7 +279,7 @@ func c03Exchange(r *rand.Rand, f []string) string {
 			break
 		}
 		id = "bad"
-		if fr.ID == "rq-77" {
+		if fr.ID == callID {
 			id = "ok"
 		}
 		if fr.Type == 3 {
@@ -290,6 +294,8 @@ func c03Exchange(r *rand.Rand, f []string) string {
 	}
 	return reply + " ran=" + ran + " id=" + id
 }
+
+var c03Row int
 
 func stubSetters(ver, role string) ([]string, map[string]string) {
 	switch ver + role {
